@@ -7,6 +7,9 @@ open H4.Annot
 def parseAnOp (args : List String) : Option Op :=
   match args with
   | ["start"] => some .start
+  | ["endan"] => some .endan
+  | ["restart"] => some .restart
+  | ["hput", a, b, h] => do some (.hput (← a.toNat?) (← b.toNat?) (← parseHex h))
   | ["fileinfo"] => some .fileinfo
   | ["create", t, a, b, r] => do some (.create (← t.toNat?) (← a.toNat?) (← b.toNat?) (← r.toNat?))
   | ["writeann", t, r, h] => do some (.writeann (← t.toNat?) (← r.toNat?) (← parseHex h))
